@@ -641,10 +641,14 @@ def csvBom : Bytes := [0xEF, 0xBB, 0xBF]
 def isTerm (c : Nat) : Bool := c == 13 || c == 10
 def csvPlain (c : Nat) : Bool := !(c == 44 || c == 34 || c == 13 || c == 10)
 
-/-- `StringRecords` → batch: whole-buffer UTF-8 check of `RecordDecoder::flush` -/
+/-- `StringRecords` → batch: the checks of `RecordDecoder::flush`: the concatenated field data is
+valid UTF-8 and (since /repo 3501bbe) every field boundary is a character boundary of it -/
 def rowsValid (rows : List Row) : Bool :=
-  let data := (rows.map List.flatten).flatten
-  utf8Valid (data.length + 1) data
+  let fields := rows.flatten
+  let data := fields.flatten
+  -- cumulative end offsets of the fields (`offsets[1..]`; `offsets[0] = 0` is always a boundary)
+  let offsets := (fields.foldl (fun (acc : List Nat × Nat) f => (acc.1 ++ [acc.2 + f.length], acc.2 + f.length)) ([], 0)).1
+  utf8Valid (data.length + 1) data && offsets.all (charBoundary data)
 
 /-- `Decoder::flush`: the buffered rows become a batch -/
 def csvFlush (s : CsvState) : CsvState × List (List Row) :=
